@@ -51,7 +51,8 @@ MANIFEST = {
             "generated unified diffs; the real GitHub/GitLab reporters run against fake APIs and everything the server holds is compared per round with the "
             "model (incl. GitLab's deduplicated 'too many comments' note). BitBucket's separate reconciliation (limit/prune/add, anchor computation) is "
             "modelled, proved idempotent/covering/duplicate-free under echo and without COMMIT-anchored comments, its two deviations from C17's shape are "
-            "proved as refutations, and the real functions are compared with the model over multi-round runs against a fake comments API. ONLY TESTED (oracle, not proved): the clauses on the real rounds, L1 on the real "
+            "proved as refutations, and the real functions are compared with the model over multi-round runs against a fake comments API. IsEqual of both platforms is additionally asked about comments that differ from the one Create would post in exactly one field "
+            "(no line at all = outdated, neighbouring lines, path, text), and the fake GitHub API serves outdated comments and a push history. ONLY TESTED (oracle, not proved): the clauses on the real rounds, L1 on the real "
             "functions, GitHub's Summary/general comments (known finding: the general comment is repeated on every run).",
     "note": "Coq 8.16.1 kernel+VM, no axioms. Trusted: hand models (validated differentially each run, not verified from source); comment text not modelled "
             "in the in-memory rounds (ids of trimmed text); servers assumed to echo positions; API errors other than the skip signal outside the model; harness fakes.",
